@@ -162,6 +162,20 @@ Matrix(t) == [y \in 1..Height(t) |-> PadTo(t.rows[y], Width(t), E)]
 
 (* transpose(): rows and columns swapped over the ragged rows padded to the *)
 (* widest ROW (zip_longest); column styles are dropped (table is cleared)   *)
+(* transpose(coord): the area (x, y)-(z, t), clamped to the table, is read row by row,                                    *)
+(* cleared when it is not square, and its columns are written back as rows from (x, y) on - cells outside the two       *)
+(* rectangles are not touched; asked for a table with x < width and y < height                                          *)
+TransposeArea(t, x, y, z0, t0) ==
+    LET z == Min(z0, Len(t.cols) - 1)
+        tt == Min(t0, Height(t) - 1)
+        w == z - x + 1
+        h == tt - y + 1
+        data == [i \in 1..h |-> LET r == RowAt(t, y + i - 1) IN SubSeq(r, x + 1, Min(z + 1, Len(r)))]
+        (* a short row counts as completed with empty cells: the area always gives w lines of h cells *)
+        td == [j \in 1..w |-> [i \in 1..h |-> IF j <= Len(data[i]) THEN data[i][j] ELSE E]]
+        cleared == IF w # h THEN SetValues(t, [i \in 1..h |-> Rep(E, w)], x, y) ELSE t
+    IN SetValues(cleared, td, x, y)
+
 Transpose(t) ==
     LET w == MaxRowWidth(t)
         rows2 == [x \in 1..w |-> [y \in 1..Height(t) |->
@@ -269,6 +283,7 @@ Apply(t, o) ==
       [] o.op = "delete_column"   -> DeleteColumn(t, o.x)
       [] o.op = "set_column_cells" -> SetColumnCells(t, o.x, o.r)
       [] o.op = "transpose"       -> Transpose(t)
+      [] o.op = "transpose_area"  -> TransposeArea(t, o.x, o.y, o.z, o.t)
       [] o.op = "rstrip"          -> RStrip(t, o.c = 1)
       [] o.op = "clear"           -> EmptyTable
       [] o.op = "extend_rows"     -> ExtendRows(t, o.rs)
